@@ -9,7 +9,7 @@ import json
 
 from hypothesis import strategies as st
 
-from vlib import fakenet, drive, refmodel
+from vlib import fakenet, drive, refmodel, report
 from vlib.runner import mkres
 
 ID = 'C14'
@@ -140,6 +140,24 @@ def eval_case(case):
         exp2 = min(case['since'], key=refmodel.vtuple)
         if got2 is None or _vt(got2) != refmodel.vtuple(exp2):
             fails.append(['compat-range-till' + ('-multidigit' if multi else ''), '%s: removed-in versions %r -> "till %s", numeric minimum is %s' % (product, case['since'], got2, exp2)])
+        # the range as the report words it: "from-till" when from is the older release, "from+ (some functionality from till)" otherwise
+        if product in ('OpenSSH', 'Dropbear SSH') and len(case['since']) >= 2 and refmodel.vtuple(case['since'][0]) != refmodel.vtuple(case['since'][1]):
+            from ssh_audit import ssh_audit as sa
+            from ssh_audit.outputbuffer import OutputBuffer
+            a, b = case['since'][0], case['since'][1]
+            tf3 = Timeframe()
+            tf3.update([prefix + a, prefix + b], True)
+
+            class _Algs:
+                def get_ssh_timeframe(self, for_server=True):
+                    return tf3
+            ob = OutputBuffer()
+            ob.use_colors = False
+            sa.output_compatibility(ob, _Algs(), False)
+            text = report.strip_ansi(ob.get_buffer()).strip()
+            want = '(gen) compatibility: %s %s' % (product, ('%s+ (some functionality from %s)' % (a, b)) if refmodel.vtuple(a) > refmodel.vtuple(b) else '%s-%s' % (a, b))
+            if text != want:
+                fails.append(['compat-range-wording' + ('-multidigit' if multi else ''), '%s: appeared in %s, removed in %s: report says %r, numeric order says %r' % (product, a, b, text, want)])
         return mkres(case, nt=multi, classes=['timeframe', product], fails=fails)
     if k == 'cli-seq':
         # several servers of one product audited in one invocation: each one's additions follow its own version
@@ -264,6 +282,11 @@ def run(ctx):
                 cli.append({'kind': 'cli', 'product': p, 'ver': '.'.join(map(str, t2)), 'patch': ''})
             t3 = t[:-1] + [t[-1] + 1]
             cli.append({'kind': 'cli', 'product': p, 'ver': '.'.join(map(str, t3)), 'patch': ''})
+            if len(t) >= 3:
+                # a release written with fewer components than the table's version (0.4 against 0.4.1): numerically older
+                cli.append({'kind': 'cli', 'product': p, 'ver': '.'.join(map(str, t[:-1])), 'patch': ''})
+                cli.append({'kind': 'cli', 'product': p, 'ver': '.'.join(map(str, t + [0])), 'patch': ''})
+                cli.append({'kind': 'cli', 'product': p, 'ver': '.'.join(map(str, t + [1])), 'patch': ''})
     ctx.map(cli)
     seq = []
     for p, s_ in vs.items():
